@@ -457,30 +457,31 @@ Fixpoint scan_headers (lines : list (list N)) (cl : N) (chunked : bool) : hscan 
     end
   end.
 
-(* findChunkedRequestEnd (after fix): position arithmetic replaced by the suffix;
-   returns the number of bytes up to the end of the chunked body, or None (npos) *)
-Fixpoint chunked_end (fuel : nat) (l : list N) (consumed : N) : option (option N) :=
-  (* None = out of fuel (a defect); Some None = npos; Some (Some n) = end offset *)
+(* findChunkedRequestEnd (after the fixes): position arithmetic replaced by the suffix; the end offset of the
+   chunked body, "need more data" (npos), or "malformed chunk size" (kChunkedInvalid) *)
+Inductive cend := ENeed | EBad | EEnd (n : N).
+Fixpoint chunked_end (fuel : nat) (l : list N) (consumed : N) : option cend :=
+  (* None = out of fuel (a defect) *)
   match fuel with
   | O => None
   | S f =>
     match l with
-    | [] => Some None
+    | [] => Some ENeed
     | _ =>
       match find_pat CRLF l with
-      | None => Some None
+      | None => Some ENeed
       | Some (szline, after) =>
         match sto_u64 16 szline with
-        | None => Some None
+        | None => Some EBad
         | Some sz =>
           let consumed1 := consumed + lenN szline + 2 in
           if sz =? 0 then
             match find_pat CRLF after with
-            | None => Some None
-            | Some (t, _) => Some (Some (consumed1 + lenN t + 2))
+            | None => Some ENeed
+            | Some (t, _) => Some (EEnd (consumed1 + lenN t + 2))
             end
           else
-            if (lenN after <? sz) || (lenN after - sz <? 2) then Some None
+            if (lenN after <? sz) || (lenN after - sz <? 2) then Some ENeed
             else chunked_end f (skipn (N.to_nat (sz + 2)) after) (consumed1 + sz + 2)
         end
       end
@@ -502,16 +503,17 @@ Fixpoint extract (fuel : nat) (data : list N) : list sact * list N * bool :=
       match scan_headers (header_lines hs) 0 false with
       | HClose => ([SClose], data, true)
       | HFraming cl chunked =>
-        let endpos :=
+        let cres :=
             if chunked then
               match chunked_end (S (length body)) body (lenN hs + 4) with
-              | Some (Some e) => Some e
-              | _ => None
+              | Some r => r
+              | None => ENeed
               end
-            else if lenN data <? lenN hs + 4 + cl then None else Some (lenN hs + 4 + cl) in
-        match endpos with
-        | None => ([], data, false)
-        | Some e =>
+            else if lenN data <? lenN hs + 4 + cl then ENeed else EEnd (lenN hs + 4 + cl) in
+        match cres with
+        | ENeed => ([], data, false)
+        | EBad => ([SClose], [], true)            (* 400 + close (the session record goes with it): more bytes cannot repair the chunk size *)
+        | EEnd e =>
           let req := firstn (N.to_nat e) data in
           let rest := skipn (N.to_nat e) data in
           let '(acts, rem, closed) := extract f rest in
